@@ -2,6 +2,7 @@ package reasm
 
 import (
 	"fmt"
+	"math"
 	"testing"
 	"time"
 
@@ -13,11 +14,11 @@ import (
 // only if it is complete or the buffer held more than maxInFlight events (the
 // timeout is far in the future, so the third cause is excluded).
 
-var hC10 = hx.New("C10", "rapid-generated single-goroutine histories with timeout 1h (time-out cause excluded), maxInFlight 0..8, windowed sequences that over-fill the buffer, EOE for head and non-head events, Maintain interleaved; oracle: buffered set reconstructed from pushes and observed deliveries, checked after every call. Non-trivial = history with an overflow eviction of an incomplete event, or a complete event that had to wait behind an incomplete older one; distinct by hash of the history")
+var hC10 = hx.New("C10", "rapid-generated single-goroutine histories with timeout far in the future (1h, 290 years or the largest Duration: time-out cause excluded), maxInFlight 0..8, windowed sequences that over-fill the buffer, EOE for head and non-head events, Maintain interleaved; oracle: buffered set reconstructed from pushes and observed deliveries, checked after every call. Non-trivial = history with an overflow eviction of an incomplete event, or a complete event that had to wait behind an incomplete older one; distinct by hash of the history")
 
 var c10Cfg = genCfg{
 	windowed: true,
-	timeouts: []time.Duration{time.Hour},
+	timeouts: []time.Duration{time.Hour, time.Hour, time.Duration(math.MaxInt64), 290 * 365 * 24 * time.Hour},
 	maxMax:   8, maxOps: 70, raw: true, nilPush: true, endClose: true, gapBias: true,
 }
 
@@ -48,7 +49,7 @@ func propC10(h History) error {
 				case len(bk.pending) > h.MaxInFlight:
 					overflow = true
 				default:
-					return fmt.Errorf("op %d (%s): event seq %d delivered without cause: it is not complete, %d events are buffered (maxInFlight %d) and the timeout is 1h", i, o.K, seq, len(bk.pending), h.MaxInFlight)
+					return fmt.Errorf("op %d (%s): event seq %d delivered without cause: it is not complete, %d events are buffered (maxInFlight %d) and the timeout is far in the future", i, o.K, seq, len(bk.pending), h.MaxInFlight)
 				}
 			}
 			delete(bk.pending, seq)
